@@ -42,6 +42,8 @@ ASSUMPTIONS = [
     "expected span attributes follow ECMA-376 21.1.3.16 / PowerPoint output: origin gridSpan=w,rowSpan=h; rest of top row "
     "rowSpan=h+hMerge; rest of left column gridSpan=w+vMerge; interior hMerge+vMerge; absent attribute = default",
     "span_height/span_width are only compared on origin and unmerged cells (documented as misleading elsewhere)",
+    "cells are read through Table.iter_cells() (documented reading order) and matched by element identity with the harness's "
+    "own a:tr/a:tc grid; Table.cell(r, c) addressing is exercised by every operation",
     "individual initial column widths/row heights are adopted from the XML once their sums and evenness were checked",
     "lxml (XPath, C14N, deepcopy of the graphic frame for prefix sharing in the enumeration) and libxml2 XSD validation",
 ]
@@ -49,23 +51,22 @@ WATCHDOG_S = {"quick": 600, "thorough": 3600}
 
 A = "http://schemas.openxmlformats.org/drawingml/2006/main"
 P = "http://schemas.openxmlformats.org/presentationml/2006/main"
-_NS = {"a": A, "p": P}
-X_TR = etree.XPath("a:tr", namespaces=_NS)
-X_TC = etree.XPath("a:tc", namespaces=_NS)
-X_P = etree.XPath("a:txBody/a:p", namespaces=_NS)
-X_COL = etree.XPath("a:tblGrid/a:gridCol", namespaces=_NS)
-X_EXT = etree.XPath("p:xfrm/a:ext", namespaces=_NS)
-X_OFF = etree.XPath("p:xfrm/a:off", namespaces=_NS)
-X_TBL = etree.XPath("a:graphic/a:graphicData/a:tbl", namespaces=_NS)
-X_SPTREE = etree.XPath("p:cSld/p:spTree", namespaces=_NS)
-X_FRAMES = etree.XPath("p:cSld/p:spTree/p:graphicFrame", namespaces=_NS)
-X_ID = etree.XPath("string(p:nvGraphicFramePr/p:cNvPr/@id)", namespaces=_NS)
+
+
+def _xp(expr):
+    return etree.XPath(expr, namespaces={"a": A, "p": P})
+
+
+X_TR, X_TC, X_P, X_COL = _xp("a:tr"), _xp("a:tc"), _xp("a:txBody/a:p"), _xp("a:tblGrid/a:gridCol")
+X_EXT, X_OFF, X_TBL = _xp("p:xfrm/a:ext"), _xp("p:xfrm/a:off"), _xp("a:graphic/a:graphicData/a:tbl")
+X_SPTREE, X_FRAMES = _xp("p:cSld/p:spTree"), _xp("p:cSld/p:spTree/p:graphicFrame")
+X_ID = _xp("string(p:nvGraphicFramePr/p:cNvPr/@id)")
 A_R, A_FLD, A_BR, A_T = ("{%s}%s" % (A, n) for n in ("r", "fld", "br", "t"))
 FLAG_NAMES = ("gridSpan", "rowSpan", "hMerge", "vMerge")
 ABORT = "abort"  # model and table may have diverged: stop this sequence (the violation is recorded)
 NEED = ("merge", "split", "is_merge_origin", "is_spanned", "span_height", "span_width", "add_table", "insert_table",
-        "height-setter", "width-setter", "overlapping-merge-attempted", "cross-table-merge-attempted",
-        "split-of-non-origin-attempted", "reopen-check")
+        "height-setter", "width-setter", "overlap-attempted", "cross-table-attempted", "split-of-non-origin-attempted",
+        "reopen-check")
 
 
 # ---------------------------------------------------------------- reference model
@@ -94,6 +95,7 @@ class Model:
         return not any(x in self.region for x in self.cells(a, b))
 
     def merge(self, a, b):
+        """Precondition can_merge.  -> True when a region (>= 2 cells) was created."""
         cells = self.cells(a, b)
         paras = [p for x in cells if self.text[x] != [""] for p in self.text[x]]
         for x in cells:
@@ -112,6 +114,7 @@ class Model:
         top, left, h, w = self.region[a]
         for x in self.cells((top, left), (top + h - 1, left + w - 1)):
             del self.region[x]
+        return False
 
     def expect(self, cell):
         """-> (role, (gridSpan, rowSpan, hMerge, vMerge)) of a grid cell."""
@@ -129,12 +132,9 @@ class Model:
 
 
 # ---------------------------------------------------------------- observation (harness-side, raw XML)
-def xbool(v):
-    return v in ("1", "true")
-
-
 def flags(tc):
-    return (int(tc.get("gridSpan", "1")), int(tc.get("rowSpan", "1")), xbool(tc.get("hMerge")), xbool(tc.get("vMerge")))
+    g = tc.get
+    return (int(g("gridSpan", "1")), int(g("rowSpan", "1")), g("hMerge") in ("1", "true"), g("vMerge") in ("1", "true"))
 
 
 def paras(tc):
@@ -155,8 +155,7 @@ def c14n(el):
 
 
 def sizes(frame_el):
-    tbl = X_TBL(frame_el)[0]
-    ext = X_EXT(frame_el)[0]
+    tbl, ext = X_TBL(frame_el)[0], X_EXT(frame_el)[0]
     return [int(g.get("w")) for g in X_COL(tbl)], [int(tr.get("h")) for tr in X_TR(tbl)], int(ext.get("cx")), int(ext.get("cy"))
 
 
@@ -170,7 +169,7 @@ class Env:
         self.prs = pptx.Presentation()
         self.slide = self.prs.slides.add_slide(self.prs.slide_layouts[6])
         self.sptree = X_SPTREE(self.slide.element)[0]
-        self.n = Counter()
+        self.n = Counter()  # reach counters, flushed into acc at the end of a unit
         self.other = None  # (table, frame_el, shape) of a second table for cross-table merges
         self.baseline = None  # validation messages of a slide with one untouched table
 
@@ -190,8 +189,7 @@ class Env:
         if self.other is None or self.other[2] != (r, c):
             if self.other is not None:
                 self.sptree.remove(self.other[1])
-            t, el = self.new_table(r, c, 1200000, 1200000)
-            self.other = (t, el, (r, c))
+            self.other = self.new_table(r, c, 1200000, 1200000) + ((r, c),)
         return self.other
 
     def flush(self):
@@ -202,13 +200,11 @@ class Env:
 
 def check_new(env, frame_el, r, c, w, h, wit, what="add_table"):
     """Rectangularity and size arithmetic of a freshly created table -> Model or None."""
-    acc = env.acc
-    ok = True
+    acc, ok = env.acc, True
     if not (isinstance(frame_el.tag, str) and frame_el.tag == "{%s}graphicFrame" % P and X_TBL(frame_el)):
         acc.violation("%s-not-appended" % what, "last spTree child after %s is not a table frame" % what, wit)
         return None
-    tbl = X_TBL(frame_el)[0]
-    lens = [len(X_TC(tr)) for tr in X_TR(tbl)]
+    lens = [len(X_TC(tr)) for tr in X_TR(X_TBL(frame_el)[0])]
     ws, hs, cx, cy = sizes(frame_el)
     if len(lens) != r or len(ws) != c:
         acc.violation("%s-shape" % what, "%s(%d,%d): %d a:tr, %d a:gridCol" % (what, r, c, len(lens), len(ws)), wit)
@@ -217,14 +213,15 @@ def check_new(env, frame_el, r, c, w, h, wit, what="add_table"):
         acc.violation("row-length", "%s(%d,%d): a:tc per a:tr = %s" % (what, r, c, lens), wit)
         ok = False
     for axis, parts, total, frame, n in (("width", ws, w, cx, c), ("height", hs, h, cy, r)):
+        head = "%s(%d,%d,%s=%d)" % (what, r, c, axis, total)
         if sum(parts) != total:
-            acc.violation("%s-sum:%s" % (what, axis), "%s(%d,%d,%s=%d): parts %s sum to %d" % (what, r, c, axis, total, parts, sum(parts)), wit)
+            acc.violation("%s-sum:%s" % (what, axis), "%s: parts %s sum to %d" % (head, parts, sum(parts)), wit)
             ok = False
         if frame != total:
-            acc.violation("%s-frame:%s" % (what, axis), "%s(%d,%d,%s=%d): frame extent %d" % (what, r, c, axis, total, frame), wit)
+            acc.violation("%s-frame:%s" % (what, axis), "%s: frame extent %d" % (head, frame), wit)
             ok = False
         if parts and max(abs(p * n - total) for p in parts) >= n * n:  # 'evenly distributed' up to the rounding remainder
-            acc.violation("%s-uneven:%s" % (what, axis), "%s(%d,%d,%s=%d): parts %s" % (what, r, c, axis, total, parts), wit)
+            acc.violation("%s-uneven:%s" % (what, axis), "%s: parts %s" % (head, parts), wit)
     if not ok:
         return None
     m = Model(r, c)
@@ -234,52 +231,57 @@ def check_new(env, frame_el, r, c, w, h, wit, what="add_table"):
 
 def compare(env, frame_el, table, m, wit, tag=""):
     """The real table against the model; returns False when a violation was recorded."""
-    acc, n = env.acc, env.n
-    bad = []
+    n, bad = env.n, []
 
     def v(key, what):
         bad.append(key)
-        acc.violation(tag + key, what + " after ops %s on %dx%d" % (wit.get("ops", [])[-3:], m.r, m.c), wit)
+        env.acc.violation(tag + key, what + " after ops %s on %dx%d" % (wit.get("ops", [])[-3:], m.r, m.c), wit)
 
-    tbl = X_TBL(frame_el)[0]
-    grid = [X_TC(tr) for tr in X_TR(tbl)]
+    grid = [X_TC(tr) for tr in X_TR(X_TBL(frame_el)[0])]
     if len(grid) != m.r or any(len(row) != m.c for row in grid):
         v("row-length", "a:tc per a:tr = %s, expected %d rows of %d" % ([len(x) for x in grid], m.r, m.c))
         return False
+    try:
+        cells = list(table.iter_cells())
+    except Exception as e:  # noqa
+        cells = []
+        v("reading-raises:%s" % type(e).__name__, "iter_cells raised %r" % e)
+    if len(cells) != m.r * m.c:
+        v("reading:iter_cells", "iter_cells gave %d cells" % len(cells))
+        return False
     for i in range(m.r):
         for j in range(m.c):
-            tc = grid[i][j]
+            tc, cell = grid[i][j], cells[i * m.c + j]
             role, want = m.expect((i, j))
+            where = "cell (%d,%d) [%s]" % (i, j, role)
             got = flags(tc)
-            if got != want:
-                for k in range(4):
-                    if got[k] != want[k]:
-                        v("flags:%s:%s" % (role, FLAG_NAMES[k]), "cell (%d,%d) [%s] has %s=%r, model %r" % (i, j, role, FLAG_NAMES[k], got[k], want[k]))
+            for k in range(4) if got != want else ():
+                if got[k] != want[k]:
+                    v("flags:%s:%s" % (role, FLAG_NAMES[k]), "%s has %s=%r, model %r" % (where, FLAG_NAMES[k], got[k], want[k]))
             txt = paras(tc)
             if txt != m.text[(i, j)]:
                 key = "text-order" if sorted(txt) == sorted(m.text[(i, j)]) else "text:%s" % role
-                v(key, "cell (%d,%d) [%s] paragraphs %r, model %r" % (i, j, role, txt, m.text[(i, j)]))
+                v(key, "%s paragraphs %r, model %r" % (where, txt, m.text[(i, j)]))
             try:
-                cell = table.cell(i, j)
                 if getattr(cell, "_tc", tc) is not tc:
-                    v("reading:cell", "table.cell(%d,%d) is not the %d-th a:tc of the %d-th a:tr" % (i, j, j, i))
+                    v("reading:iter_cells", "%s: iter_cells item %d is another a:tc" % (where, i * m.c + j))
                 obs = [("is_merge_origin", cell.is_merge_origin, role == "origin"), ("is_spanned", cell.is_spanned, role not in ("origin", "free"))]
                 if role in ("origin", "free"):
                     obs += [("span_height", cell.span_height, want[1]), ("span_width", cell.span_width, want[0])]
                     n["span_height"] += 1
                     n["span_width"] += 1
             except Exception as e:  # noqa
-                v("reading-raises:%s" % type(e).__name__, "reading cell (%d,%d) [%s] raised %r" % (i, j, role, e))
+                v("reading-raises:%s" % type(e).__name__, "reading %s raised %r" % (where, e))
                 continue
             for name, g, w_ in obs:
                 if g != w_:
-                    v("reading:%s" % name, "cell (%d,%d) [%s] %s is %r, model %r" % (i, j, role, name, g, w_))
+                    v("reading:%s" % name, "%s %s is %r, model %r" % (where, name, g, w_))
     n["is_merge_origin"] += m.r * m.c
     n["is_spanned"] += m.r * m.c
     ws, hs, cx, cy = sizes(frame_el)
     for key, got, want in (("col-width", ws, m.widths), ("row-height", hs, m.heights), ("frame-size:width", cx, m.frame_w), ("frame-size:height", cy, m.frame_h)):
         if got != want:
-            v(key, "%s is %r, model %r (sum of parts %d/%d)" % (key, got, want, sum(ws), sum(hs)))
+            v(key, "observed %r, model %r (sum of columns %d, of rows %d)" % (got, want, sum(ws), sum(hs)))
     return not bad
 
 
@@ -294,77 +296,58 @@ def call(fn):
     return None
 
 
-def refused(env, what, raised, snaps, wit):
-    """A call the model refuses: must raise ValueError and change nothing."""
-    acc = env.acc
-    if raised is None:
-        acc.violation("%s-not-refused" % what, "%s %s was accepted" % (what, wit["ops"][-1]), wit)
-        return ABORT
-    if raised != "ValueError":
-        acc.violation("%s-wrong-exception:%s" % (what, raised), "%s %s raised %s, documented ValueError" % (what, wit["ops"][-1], raised), wit)
-    if any(c14n(el) != before for el, before in snaps):
-        acc.violation("refused-%s-changed-xml" % ("split" if what.startswith("split") else "merge"),
-                      "refused %s %s changed the a:tbl" % (what, wit["ops"][-1]), wit)
-        return ABORT
-    return False
-
-
 def apply_op(env, table, frame_el, m, op, wit):
     """Run one operation on table and model.  -> True (accepted region-creating merge) / False / ABORT."""
     from pptx.util import Emu
 
-    acc, n = env.acc, env.n
-    kind = op[0]
+    acc, n, kind = env.acc, env.n, op[0]
     tbl = X_TBL(frame_el)[0]
-    if kind in ("merge", "xmerge"):
-        a, b = (op[1], op[2]), (op[3], op[4])
-        n["merge"] += 1
-        if kind == "xmerge":
+    if kind in ("merge", "xmerge", "split"):
+        a, snaps = (op[1], op[2]), [tbl]
+        if kind == "split":
+            what, allowed, fn, commit = "split-of-non-origin", m.is_origin(a), lambda: table.cell(*a).split(), lambda: m.split(a)
+        elif kind == "merge":
+            b = (op[3], op[4])
+            what, allowed, fn, commit = "overlap", m.can_merge(a, b), lambda: table.cell(*a).merge(table.cell(*b)), lambda: m.merge(a, b)
+        else:
             otab, oel, _ = env.other_table()
-            n["cross-table-merge-attempted"] += 1
-            snaps = [(tbl, c14n(tbl)), (X_TBL(oel)[0], c14n(X_TBL(oel)[0]))]
-            return refused(env, "cross-table", call(lambda: table.cell(*a).merge(otab.cell(*b))), snaps, wit)
-        if not m.can_merge(a, b):
-            n["overlapping-merge-attempted"] += 1
-            snaps = [(tbl, c14n(tbl))]
-            return refused(env, "overlap", call(lambda: table.cell(*a).merge(table.cell(*b))), snaps, wit)
-        raised = call(lambda: table.cell(*a).merge(table.cell(*b)))
-        if raised:
-            acc.violation("merge-wrongly-refused" if raised == "ValueError" else "merge-raises:%s" % raised,
-                          "merge %s over unmerged cells raised %s" % (op, raised), wit)
+            snaps.append(X_TBL(oel)[0])
+            what, allowed, fn = "cross-table", False, lambda: table.cell(*a).merge(otab.cell(op[3], op[4]))
+        n["split" if kind == "split" else "merge"] += 1
+        if allowed:
+            raised = call(fn)
+            if raised:
+                acc.violation("%s-wrongly-refused" % kind if raised == "ValueError" else "%s-raises:%s" % (kind, raised), "%s on a valid target raised %s" % (op, raised), wit)
+                return ABORT
+            return commit()
+        # a call the model refuses: documented ValueError, nothing may change
+        n[what + "-attempted"] += 1
+        before = [c14n(x) for x in snaps]
+        raised = call(fn)
+        if raised is None:
+            acc.violation("%s-not-refused" % what, "%s %s was accepted" % (what, op), wit)
             return ABORT
-        return m.merge(a, b)
-    if kind == "split":
-        a = (op[1], op[2])
-        n["split"] += 1
-        if not m.is_origin(a):
-            n["split-of-non-origin-attempted"] += 1
-            return refused(env, "split-of-non-origin", call(lambda: table.cell(*a).split()), [(tbl, c14n(tbl))], wit)
-        raised = call(lambda: table.cell(*a).split())
-        if raised:
-            acc.violation("split-raises:%s" % raised, "split %s of a merge origin raised %s" % (op, raised), wit)
+        if raised != "ValueError":
+            acc.violation("%s-wrong-exception:%s" % (what, raised), "%s %s raised %s, documented ValueError" % (what, op, raised), wit)
+        if [c14n(x) for x in snaps] != before:
+            acc.violation("refused-%s-changed-xml" % ("split" if kind == "split" else "merge"), "refused %s %s changed the a:tbl" % (what, op), wit)
             return ABORT
-        m.split(a)
         return False
     if kind == "text":
-        def f():
-            table.cell(op[1], op[2]).text = op[3]
         m.text[(op[1], op[2])] = op[3].split("\n")
+        raised = call(lambda: setattr(table.cell(op[1], op[2]), "text", op[3]))
     elif kind == "rowh":
-        def f():
-            table.rows[op[1]].height = Emu(op[2])
         m.heights[op[1]] = op[2]
         m.frame_h = sum(m.heights)
         n["height-setter"] += 1
+        raised = call(lambda: setattr(table.rows[op[1]], "height", Emu(op[2])))
     elif kind == "colw":
-        def f():
-            table.columns[op[1]].width = Emu(op[2])
         m.widths[op[1]] = op[2]
         m.frame_w = sum(m.widths)
         n["width-setter"] += 1
+        raised = call(lambda: setattr(table.columns[op[1]], "width", Emu(op[2])))
     else:
         raise ValueError("unknown op %r" % (op,))
-    raised = call(f)
     if raised:
         acc.violation("%s-raises:%s" % (kind, raised), "%s raised %s" % (op, raised), wit)
         return ABORT
@@ -372,10 +355,15 @@ def apply_op(env, table, frame_el, m, op, wit):
 
 
 def prefill_ops(r, c):
+    return [["text", k // c, k % c, "k%da\nk%db" % (k, k) if k % 4 == 3 else "k%d" % k] for k in range(r * c) if k % 4 != 1]
+
+
+def orientations(t, l, b, g):
+    """The distinct (receiver, other) corner pairs naming rectangle rows t..b x columns l..g."""
     out = []
-    for k in range(r * c):
-        if k % 4 != 1:
-            out.append(["text", k // c, k % c, "k%da\nk%db" % (k, k) if k % 4 == 3 else "k%d" % k])
+    for pair in (((t, l), (b, g)), ((b, g), (t, l)), ((t, g), (b, l)), ((b, l), (t, g))):
+        if pair not in out:
+            out.append(pair)
     return out
 
 
@@ -383,20 +371,13 @@ _OPS = {}
 
 
 def all_ops(r, c, full, rnd=None):
-    """Every rectangle as a merge (all distinct corner-pair orientations, or one sampled) + split of every cell."""
+    """Every rectangle as a merge (all distinct orientations, or one sampled) + split of every cell."""
     if full and (r, c) in _OPS:
         return _OPS[(r, c)]
     out = []
-    for t in range(r):
-        for l in range(c):
-            for b in range(t, r):
-                for g in range(l, c):
-                    o = []
-                    for pair in (((t, l), (b, g)), ((b, g), (t, l)), ((t, g), (b, l)), ((b, l), (t, g))):
-                        if pair not in o:
-                            o.append(pair)
-                    for x, y in o if full else [o[rnd.randrange(len(o))]]:
-                        out.append(["merge", x[0], x[1], y[0], y[1]])
+    for t, l, b, g in ((t, l, b, g) for t in range(r) for l in range(c) for b in range(t, r) for g in range(l, c)):
+        o = orientations(t, l, b, g)
+        out += [["merge", x[0], x[1], y[0], y[1]] for x, y in (o if full else [rnd.choice(o)])]
     out += [["split", i, j] for i in range(r) for j in range(c)]
     if full:
         _OPS[(r, c)] = out
@@ -404,10 +385,10 @@ def all_ops(r, c, full, rnd=None):
 
 
 # ---------------------------------------------------------------- save / re-open spot check
-def slide_errors(blob):
+def slide_errors(buf):
     from vlib import xsdkit
 
-    with zipfile.ZipFile(io.BytesIO(blob)) as z:
+    with zipfile.ZipFile(buf) as z:
         names = [x for x in z.namelist() if re.fullmatch(r"ppt/slides/slide\d+\.xml", x)]
         errs, why = xsdkit.validate_part(z.read(names[0]))
     if errs is None:
@@ -419,11 +400,11 @@ def save_check(env, frame_el, m, wit):
     """Save, validate the slide part, re-open and compare the table with the model again."""
     acc = env.acc
     if env.baseline is None:
-        t, el = env.new_table(2, 2, 20001, 20001)
+        el = env.new_table(2, 2, 20001, 20001)[1]
         buf = io.BytesIO()
         env.prs.save(buf)
         env.sptree.remove(el)
-        env.baseline = slide_errors(buf.getvalue())
+        env.baseline = slide_errors(buf)
     attached = frame_el.getparent() is not None
     if not attached:
         env.sptree.append(frame_el)
@@ -432,12 +413,11 @@ def save_check(env, frame_el, m, wit):
     if not attached:
         env.sptree.remove(frame_el)
     wit = dict(wit, reopen=True)
-    for msg in slide_errors(buf.getvalue()):
+    for msg in slide_errors(buf):
         if msg not in env.baseline:
             acc.violation("invalid-xml:" + re.sub(r"\d+", "N", msg)[:140], "saved slide invalid: %s" % msg, wit)
-    prs2 = env.pptx.Presentation(io.BytesIO(buf.getvalue()))
+    slide2 = env.pptx.Presentation(io.BytesIO(buf.getvalue())).slides[0]
     sid = X_ID(frame_el)
-    slide2 = prs2.slides[0]
     els = [f for f in X_FRAMES(slide2.element) if X_ID(f) == sid]
     shapes = [s for s in slide2.shapes if str(s.shape_id) == sid and getattr(s, "has_table", False)]
     if len(els) != 1 or len(shapes) != 1:
@@ -458,29 +438,24 @@ def start(env, r, c, wit, prefill=True):
         return None
     for op in prefill_ops(r, c) if prefill else []:
         apply_op(env, table, el, m, op, dict(wit, ops=[op]))
-    if not compare(env, el, table, m, wit):
-        return None
-    return table, el, m
+    return (table, el, m) if compare(env, el, table, m, wit) else None
 
 
 def dfs(env, el, m, path, merges, unit, st):
-    depth, full, count_from = unit["depth"], unit["full"], unit.get("count_from", 1)
-    ops = all_ops(m.r, m.c, full, st["rnd"])
-    for idx, op in enumerate(ops):
+    depth, count_from = unit["depth"], unit.get("count_from", 1)
+    for idx, op in enumerate(all_ops(m.r, m.c, unit["full"], st["rnd"])):
         if not path and idx % unit["of"] != unit["shard"]:
             continue
-        el2, m2 = copy.deepcopy(el), m.clone()
-        seq = path + [op]
-        wit = dict(st["wit"], ops=seq)
+        el2, m2, seq = copy.deepcopy(el), m.clone(), path + [op]
         table = env.wrap(el2)
+        wit = dict(st["wit"], ops=seq)
         res = apply_op(env, table, el2, m2, op, wit)
         ok = res is not ABORT and compare(env, el2, table, m2, wit)
         merges2 = merges + (res is True)
         if len(seq) >= count_from:
             env.acc.evaluations += 1
+            env.acc.nontrivial_count += len(seq) >= 2 and merges2 > 0
             st["n"] += 1
-            if len(seq) >= 2 and merges2:
-                env.acc.nontrivial_count += 1
             if ok and st["n"] % st["every"] == 0:
                 save_check(env, el2, m2, wit)
             if st["n"] % 100003 == 1 and len(env.acc.samples) < 3:
@@ -489,34 +464,31 @@ def dfs(env, el, m, path, merges, unit, st):
             dfs(env, el2, m2, seq, merges2, unit, st)
 
 
-def run_exh(env, unit, seed):
+def run_exh(env, unit):
     from vlib import env as venv
 
-    r, c = unit["r"], unit["c"]
-    wit = {}
+    r, c, wit = unit["r"], unit["c"], {}
     s = start(env, r, c, wit)
     if s is None:
         return
-    table, el, m = s
     st = {"wit": wit, "n": 0, "every": unit.get("every", 2000), "rnd": venv.rng(ID, "exh", r, c, unit["shard"])}
-    env.sptree.remove(el)  # the enumeration works on detached copies of the frame
-    dfs(env, el, m, [], 0, unit, st)
+    env.sptree.remove(s[1])  # the enumeration works on detached copies of the frame
+    dfs(env, s[1], s[2], [], 0, unit, st)
     cls = "exh-%dx%d-d%d%s" % (r, c, unit["depth"], "" if unit["full"] else "-sampled")
     env.acc.classes[cls] = env.acc.classes.get(cls, 0) + st["n"]
 
 
 # ---------------------------------------------------------------- random part
-PROFILES = {
-    "merge-heavy": (("merge", 55), ("split", 15), ("text", 15), ("rowh", 5), ("colw", 5), ("xmerge", 5)),
-    "split-heavy": (("merge", 35), ("split", 40), ("text", 15), ("rowh", 4), ("colw", 4), ("xmerge", 2)),
-    "text-heavy": (("merge", 30), ("split", 15), ("text", 45), ("rowh", 4), ("colw", 4), ("xmerge", 2)),
-    "resize-heavy": (("merge", 30), ("split", 15), ("text", 10), ("rowh", 20), ("colw", 20), ("xmerge", 5)),
+PROFILES = {  # weights of merge, split, text, rowh, colw, xmerge
+    "merge-heavy": (55, 15, 15, 5, 5, 5),
+    "split-heavy": (35, 40, 15, 4, 4, 2),
+    "text-heavy": (30, 15, 45, 4, 4, 2),
+    "resize-heavy": (30, 15, 10, 20, 20, 5),
 }
 
 
 def random_op(rnd, m, profile, step):
-    kinds, weights = zip(*PROFILES[profile])
-    kind = rnd.choices(kinds, weights)[0]
+    kind = rnd.choices(("merge", "split", "text", "rowh", "colw", "xmerge"), PROFILES[profile])[0]
     r, c = m.r, m.c
     cell = (rnd.randrange(r), rnd.randrange(c))
     if kind == "merge":
@@ -524,8 +496,7 @@ def random_op(rnd, m, profile, step):
             cell = rnd.choice(sorted(m.region))
         h = min(rnd.choice((1, 1, 2, 2, 3, r)), r - cell[0])
         w = min(rnd.choice((1, 1, 2, 2, 3, c)), c - cell[1])
-        t, l, b, g = cell[0], cell[1], cell[0] + h - 1, cell[1] + w - 1
-        x, y = rnd.choice((((t, l), (b, g)), ((b, g), (t, l)), ((t, g), (b, l)), ((b, l), (t, g))))
+        x, y = rnd.choice(orientations(cell[0], cell[1], cell[0] + h - 1, cell[1] + w - 1))
         return ["merge", x[0], x[1], y[0], y[1]]
     if kind == "xmerge":
         return ["xmerge", cell[0], cell[1], rnd.randrange(r), rnd.randrange(c)]
@@ -537,12 +508,11 @@ def random_op(rnd, m, profile, step):
     if kind == "text":
         t = "t%d" % step
         return ["text", cell[0], cell[1], rnd.choice(("", t, t, t + "a\n" + t + "b", t + "a\n\n" + t + "b", "\n", t + "\vbr", "ü" + t))]
-    if kind == "rowh":
-        return ["rowh", cell[0], rnd.choice((0, 1, rnd.randrange(5000000), rnd.randrange(5000000)))]
-    return ["colw", cell[1], rnd.choice((0, 1, rnd.randrange(5000000), rnd.randrange(5000000)))]
+    size = rnd.choice((0, 1, rnd.randrange(5000000), rnd.randrange(5000000)))
+    return ["rowh", cell[0], size] if kind == "rowh" else ["colw", cell[1], size]
 
 
-def run_random(env, unit, seed):
+def run_random(env, unit):
     from vlib import env as venv
 
     acc = env.acc
@@ -551,22 +521,21 @@ def run_random(env, unit, seed):
         r, c = rnd.randint(1, 12), rnd.randint(1, 12)
         w, h = rnd.randrange(c, 9000000), rnd.randrange(r, 6000000)
         profile = rnd.choice(sorted(PROFILES))
-        wit = dict(kind="seq", rows=r, cols=c, width=w, height=h, prefill=False, ops=[])
+        ops = []
+        wit = dict(kind="seq", rows=r, cols=c, width=w, height=h, prefill=False, ops=ops)
         table, el = env.new_table(r, c, w, h)
         m = check_new(env, el, r, c, w, h, wit)
         merges, ok = 0, m is not None
-        step = 0
-        while ok and step < unit["ops"]:
-            op = random_op(rnd, m, profile, step)
-            wit["ops"].append(op)
-            res = apply_op(env, table, el, m, op, dict(wit, ops=list(wit["ops"])))
-            ok = res is not ABORT and compare(env, el, table, m, dict(wit, ops=list(wit["ops"])))
+        while ok and len(ops) < unit["ops"]:
+            ops.append(random_op(rnd, m, profile, len(ops)))
+            now = dict(wit, ops=list(ops))
+            res = apply_op(env, table, el, m, ops[-1], now)
+            ok = res is not ABORT and compare(env, el, table, m, now)
             merges += res is True
-            step += 1
         if ok and k % unit["every"] == 0:
             save_check(env, el, m, wit)
-        acc.case(key=venv.khash([r, c, wit["ops"]]), nontrivial=len(wit["ops"]) >= 2 and merges > 0, cls="random-" + profile,
-                 sample={"rows": r, "cols": c, "profile": profile, "accepted_merges": merges, "ops": wit["ops"][:6]} if k % 97 == 0 else None)
+        acc.case(key=venv.khash([r, c, ops]), nontrivial=len(ops) >= 2 and merges > 0, cls="random-" + profile,
+                 sample={"rows": r, "cols": c, "profile": profile, "accepted_merges": merges, "ops": ops[:6]} if k % 97 == 0 else None)
         acc.count("random_accepted_merges", merges)
         env.sptree.remove(el)
 
@@ -574,70 +543,70 @@ def run_random(env, unit, seed):
 # ---------------------------------------------------------------- add_table / insert_table / cross-table
 def run_add_table(env, unit):
     r = unit["rows"]
-    for c in range(1, 9):
-        for k in (0, 1, 100003):
-            for j in range(c):
-                for i in range(r):
-                    w, h = c * k + j, r * k + i
-                    wit = dict(kind="add_table", rows=r, cols=c, width=w, height=h)
-                    table, el = env.new_table(r, c, w, h)
-                    m = check_new(env, el, r, c, w, h, wit)
-                    if m is not None and (i + j) % 3 == 0:
-                        compare(env, el, table, m, wit)
-                    env.acc.case(nontrivial=bool(i or j), cls="add_table")
-                    env.sptree.remove(el)
+    for c, k in ((c, k) for c in range(1, 9) for k in (0, 1, 100003)):
+        for j, i in ((j, i) for j in range(c) for i in range(r)):
+            w, h = c * k + j, r * k + i
+            wit = dict(kind="add_table", rows=r, cols=c, width=w, height=h)
+            table, el = env.new_table(r, c, w, h)
+            m = check_new(env, el, r, c, w, h, wit)
+            if m is not None and (i + j) % 3 == 0:
+                compare(env, el, table, m, wit)
+            env.acc.case(nontrivial=bool(i or j), cls="add_table")
+            env.sptree.remove(el)
 
 
-def run_insert_table(env):
+PH_SP = (
+    '<p:sp xmlns:p="%s" xmlns:a="%s"><p:nvSpPr><p:cNvPr id="%%d" name="Table Placeholder"/><p:cNvSpPr><a:spLocks noGrp="1"/>'
+    '</p:cNvSpPr><p:nvPr><p:ph type="tbl" idx="13"/></p:nvPr></p:nvSpPr><p:spPr><a:xfrm><a:off x="101" y="202"/>'
+    '<a:ext cx="%%d" cy="500000"/></a:xfrm></p:spPr></p:sp>' % (P, A)
+)
+
+
+def run_insert_table(env, only=None):
+    """insert_table on an injected table placeholder: documented = placeholder's position and width, height = rows * k."""
     from pptx.oxml import parse_xml
 
-    acc = env.acc
-    ratios = set()
-    for r in range(1, 9):
-        for c in range(1, 9):
-            phw = 1000003 + 7 * r + c
-            sp = ('<p:sp xmlns:p="%s" xmlns:a="%s"><p:nvSpPr><p:cNvPr id="%d" name="Table Placeholder"/><p:cNvSpPr><a:spLocks noGrp="1"/>'
-                  '</p:cNvSpPr><p:nvPr><p:ph type="tbl" idx="13"/></p:nvPr></p:nvSpPr><p:spPr><a:xfrm><a:off x="101" y="202"/>'
-                  '<a:ext cx="%d" cy="500000"/></a:xfrm></p:spPr></p:sp>' % (P, A, 900 + r * 8 + c, phw))
-            env.sptree.append(parse_xml(sp))
-            wit = dict(kind="insert_table", rows=r, cols=c, phw=phw)
-            phs = [p for p in env.slide.placeholders if hasattr(p, "insert_table")]
-            if len(phs) != 1:
-                raise RuntimeError("injected table placeholder not offered by slide.placeholders")
-            gf = phs[0].insert_table(r, c)
-            env.n["insert_table"] += 1
-            el = env.sptree[-1]
-            ws, hs, cx, cy = sizes(el) if X_TBL(el) else ([], [], 0, 0)
-            m = check_new(env, el, r, c, phw, cy, wit, what="insert_table")  # width documented = placeholder's; height = rows * k
-            off = X_OFF(el)[0] if m is not None else None
-            if off is not None and (off.get("x"), off.get("y")) != ("101", "202"):
+    acc, ratios = env.acc, set()
+    for r, c in [only] if only else [(r, c) for r in range(1, 9) for c in range(1, 9)]:
+        phw = 1000003 + 7 * r + c
+        env.sptree.append(parse_xml(PH_SP % (900 + r * 8 + c, phw)))
+        wit = dict(kind="insert_table", rows=r, cols=c)
+        phs = [p for p in env.slide.placeholders if hasattr(p, "insert_table")]
+        if len(phs) != 1:
+            raise RuntimeError("injected table placeholder not offered by slide.placeholders")
+        gf = phs[0].insert_table(r, c)
+        env.n["insert_table"] += 1
+        el = env.sptree[-1]
+        cy = sizes(el)[3] if X_TBL(el) else 0
+        m = check_new(env, el, r, c, phw, cy, wit, what="insert_table")
+        if m is not None:
+            off = X_OFF(el)[0]
+            if (off.get("x"), off.get("y")) != ("101", "202"):
                 acc.violation("insert_table-position", "frame at (%s,%s), placeholder at (101,202)" % (off.get("x"), off.get("y")), wit)
-            if m is not None:
-                compare(env, el, gf.table, m, wit)
-                ratios.add(cy / r)
-                if cy % r or len(ratios) > 1:
-                    acc.violation("insert_table-height-not-proportional", "frame height %d for %d rows (height/rows seen: %s)" % (cy, r, sorted(ratios)), wit)
-            acc.case(nontrivial=phw % c != 0, cls="insert_table")
-            env.sptree.remove(el)
+            compare(env, el, gf.table, m, wit)
+            ratios.add(cy / r)
+            if cy % r or len(ratios) > 1:
+                acc.violation("insert_table-height-not-proportional", "frame height %d for %d rows (height/rows seen: %s)" % (cy, r, sorted(ratios)), wit)
+        acc.case(nontrivial=phw % c != 0, cls="insert_table")
+        env.sptree.remove(el)
 
 
 def run_cross(env):
-    for r in range(1, 4):
-        for c in range(1, 4):
-            wit = {}
-            s = start(env, r, c, wit)
-            env.other_table(r, c)
-            if s is None:
-                continue
-            table, el, m = s
-            for a in Model.cells((0, 0), (r - 1, c - 1)):
-                for b in Model.cells((0, 0), (r - 1, c - 1)):
-                    op = ["xmerge", a[0], a[1], b[0], b[1]]
-                    w2 = dict(wit, ops=[op], other=[r, c])
-                    if apply_op(env, table, el, m, op, w2) is not ABORT:
-                        compare(env, el, table, m, w2)
-                    env.acc.case(nontrivial=False, cls="cross-table")
-            env.sptree.remove(el)
+    for r, c in ((r, c) for r in range(1, 4) for c in range(1, 4)):
+        wit = {}
+        s = start(env, r, c, wit)
+        env.other_table(r, c)
+        if s is None:
+            continue
+        table, el, m = s
+        every = Model.cells((0, 0), (r - 1, c - 1))
+        for a, b in ((a, b) for a in every for b in every):
+            op = ["xmerge", a[0], a[1], b[0], b[1]]
+            w2 = dict(wit, ops=[op], other=[r, c])
+            if apply_op(env, table, el, m, op, w2) is not ABORT:
+                compare(env, el, table, m, w2)
+            env.acc.case(nontrivial=False, cls="cross-table")
+        env.sptree.remove(el)
 
 
 # ---------------------------------------------------------------- contract
@@ -647,9 +616,9 @@ def plan(tier, seed):
     def exh(shapes, depth, full, target, **kw):
         for r, c in shapes:
             nops = len(all_ops(r, c, True)) if full else (r * (r + 1) // 2) * (c * (c + 1) // 2) + r * c
-            of = max(1, min(nops, -(-nops ** depth // target)))
-            for s in range(of):
-                units.append(dict(kind="exh", r=r, c=c, depth=depth, full=full, shard=s, of=of, cost=nops ** depth / of, **kw))
+            of = max(1, min(nops, -(-(nops ** depth) // target)))
+            of = nops if of * 2 > nops else of  # whole first operations per unit keep the units even
+            units.extend(dict(kind="exh", r=r, c=c, depth=depth, full=full, shard=s, of=of, cost=nops ** depth / of, **kw) for s in range(of))
 
     small = [(r, c) for r in range(1, 4) for c in range(1, 4)]
     if tier == "quick":
@@ -662,10 +631,10 @@ def plan(tier, seed):
         exh(side4, 3, False, 15000, count_from=3)
         nrand, per, every = 20000, 250, 200
     for first in range(0, nrand, per):
-        units.append(dict(kind="random", first=first, count=min(per, nrand - first), ops=30, every=every, cost=per * 25))
+        units.append(dict(kind="random", first=first, count=min(per, nrand - first), ops=30, every=every, cost=per * 50))
     units += [dict(kind="add_table", rows=r, cost=3000) for r in range(1, 9)]
     units += [dict(kind="insert_table", cost=500), dict(kind="cross", cost=500)]
-    units.sort(key=lambda u: -u["cost"])
+    units.sort(key=lambda u: -u["cost"])  # round-robin over the workers then balances
     return units
 
 
@@ -677,50 +646,45 @@ def run_unit(unit, tier, seed, acc):
         _ENV[:] = [Env(acc)]
     env = _ENV[0]
     try:
-        k = unit["kind"]
-        if k == "exh":
-            run_exh(env, unit, seed)
-        elif k == "random":
-            run_random(env, unit, seed)
-        elif k == "add_table":
+        kind = unit["kind"]
+        if kind == "exh":
+            run_exh(env, unit)
+        elif kind == "random":
+            run_random(env, unit)
+        elif kind == "add_table":
             run_add_table(env, unit)
-        elif k == "insert_table":
+        elif kind == "insert_table":
             run_insert_table(env)
-        elif k == "cross":
+        elif kind == "cross":
             run_cross(env)
     finally:
         env.flush()
 
 
-def show(frame_el):
+def show(frame_el, m):
     for tr in X_TR(X_TBL(frame_el)[0]):
-        print("   ", "  ".join("%d,%d,%d,%d %-14r" % (flags(tc) + ("|".join(paras(tc))[:14],)) for tc in X_TC(tr)))
+        print("   ", "  ".join("%d,%d,%d,%d %-14r" % (flags(tc) + ("|".join(paras(tc))[:12],)) for tc in X_TC(tr)))
+    print("    sizes (widths, heights, cx, cy)", sizes(frame_el), "model regions (top,left,h,w)", sorted(set(m.region.values())))
 
 
 def replay(w, acc):
     env = Env(acc)
-    kind = w.get("kind", "seq")
     r, c = w["rows"], w["cols"]
-    if kind == "add_table":
-        table, el = env.new_table(r, c, w["width"], w["height"])
-        print("add_table(%d,%d,width=%d,height=%d) ->" % (r, c, w["width"], w["height"]), sizes(el))
-        check_new(env, el, r, c, w["width"], w["height"], w)
-        return
-    if kind == "insert_table":
-        run_insert_table(env)
-        return
+    if w.get("kind") == "insert_table":
+        return run_insert_table(env, only=(r, c))
     table, el = env.new_table(r, c, w["width"], w["height"])
+    print("add_table(%d,%d,width=%d,height=%d) ->" % (r, c, w["width"], w["height"]), sizes(el))
     m = check_new(env, el, r, c, w["width"], w["height"], w)
-    if m is None:
+    if m is None or w.get("kind") == "add_table":
         return
     if w.get("other"):
         env.other_table(*w["other"])
+    print("cells below: gridSpan,rowSpan,hMerge,vMerge 'paragraphs'")
     for op in (prefill_ops(r, c) if w.get("prefill") else []) + w["ops"]:
         res = apply_op(env, table, el, m, op, w)
-        print("op", op, "->", {True: "accepted merge", False: "done/refused", ABORT: "violation"}[res])
+        print("op", op, "->", {True: "accepted merge", False: "done / refused as expected", ABORT: "VIOLATION"}[res])
         if op[0] != "text" or res is ABORT:
-            show(el)
-            print("    sizes", sizes(el), "model regions", sorted(set(m.region.values())))
+            show(el, m)
         if res is ABORT or not compare(env, el, table, m, w):
             return
     if w.get("reopen"):
